@@ -581,6 +581,38 @@ var rMarkLayers = &Rule{
 				}
 			}
 		})
+		// in Is / IsAny, inside the chain loops, getMark is applied to the loop variable
+		for _, name := range []string{"Is", "IsAny"} {
+			fn := p.Func("markers", name)
+			if fn == nil {
+				continue
+			}
+			uo := p.Func("errbase", "UnwrapOnce")
+			for _, l := range naturalLoops(fn) {
+				isChain := false
+				for b := range l.Body {
+					for _, in := range b.Instrs {
+						if call, ok := in.(*ssa.Call); ok && sx.Callee(call) == uo {
+							isChain = true
+						}
+					}
+				}
+				if !isChain {
+					continue
+				}
+				for b := range l.Body {
+					for _, in := range b.Instrs {
+						call, ok := in.(*ssa.Call)
+						if !ok || sx.Callee(call) != gm {
+							continue
+						}
+						_, isPhi := call.Call.Args[0].(*ssa.Phi)
+						c.Check(isPhi, "markers."+name+": getMark inside the chain loop", call.Pos(), "applied to the loop variable (every layer's mark is compared)",
+							"inside the loop over the causal chain the mark is taken of "+describeVal(call.Call.Args[0])+", not of the current layer: only one layer's mark is ever compared")
+					}
+				}
+			}
+		}
 		c.Check(nCalls >= 2 && onPhi && onParam, "markers.getMark: one GetTypeMark per layer", gm.Pos(), fmt.Sprintf("%d GetTypeMark calls: on the error and on the chain loop variable", nCalls),
 			"getMark does not take errbase.GetTypeMark of the error and of every UnwrapOnce layer")
 	},
